@@ -1,79 +1,122 @@
 package c16
 
+// Known findings of this check on gnark f97c049 (registered in
+// /verif/known_findings.json). For every *open* entry
+//   - a dedicated probe (the exact failing input / strategy) runs on every check
+//     run and the KNOWN-FINDING line is printed iff the probe still reproduces;
+//   - the generators exclude exactly the shape of the finding by construction
+//     (counted as discards) so that the search continues behind it.
+// Entries that are not open (fixed / removed) exclude nothing: the shapes are
+// then ordinary inputs and the probes ordinary regression cases.
+
 import (
 	"encoding/json"
 	"math/big"
-	"os"
-	"strings"
 	"testing"
 
 	"verifharness/lib/ev"
 )
 
-// signature maps a violating case to the match signature of a known finding
-// ("" = none). Only open entries of /verif/known_findings.json suppress anything.
-func signature(kind string, c any, msg string) string {
-	if sc, ok := c.(SWCase); ok && !sc.Complete && strings.Contains(msg, "in-domain input not satisfiable") {
-		cv := curves[sc.Curve]
-		for _, x := range sc.Scalars {
-			m := new(big.Int).Mod(x.value(), cv.R)
-			if m.Cmp(big.NewInt(1)) == 0 || m.Cmp(new(big.Int).Sub(cv.R, big.NewInt(1))) == 0 {
-				return SigScalarOne
-			}
-		}
-	}
-	if sc, ok := c.(SWCase); ok && (strings.Contains(msg, "in-domain input not satisfiable") || strings.Contains(msg, "wrong claimed output")) {
-		if oppositeYDistinctX(&sc) {
-			return SigAddUnifiedOppY
-		}
-	}
-	if ac, ok := c.(AdvCase); ok {
-		cv := curves[ac.Curve]
-		sv := new(big.Int).Mod(unhx(ac.S), cv.R)
-		pm1 := sv.Cmp(big.NewInt(1)) == 0 || sv.Cmp(new(big.Int).Sub(cv.R, big.NewInt(1))) == 0
-		base := cv.G
-		if ac.Op == opMul {
-			base = ac.P.point()
-		}
-		switch {
-		case strings.Contains(msg, "is satisfiable") && cv.Lambda != nil && ac.Complete &&
-			(sameAbscissa(cv, base, sv, ac.Claim) || sv.Sign() == 0 || sv.Cmp(new(big.Int).Sub(cv.R, big.NewInt(1))) == 0 || base.isInf()):
-			return SigCompleteBypass
-		case strings.Contains(msg, "rejects the native result") && cv.Lambda == nil && fakeGLVCollision(cv, sv):
-			return SigFakeGLVScalarOne
-		case strings.Contains(msg, "is satisfiable") && cv.Lambda != nil && (ac.Strategy == "zero-subscalars" || (ac.Strategy == "small-subscalars" && ac.K&0xf == 0)):
-			return SigZeroSubscalars
-		case strings.Contains(msg, "rejects the native result") && cv.Lambda == nil && pm1:
-			return SigFakeGLVScalarOne
-		case strings.Contains(msg, "not satisfiable with the native result") && cv.Lambda != nil && pm1 && !ac.Complete:
-			return SigScalarOne
-		}
-	}
-	if sc, ok := c.(SWCase); ok && strings.Contains(msg, "in-domain input not satisfiable") && curves[sc.Curve].Lambda == nil {
-		cv := curves[sc.Curve]
-		for _, x := range sc.Scalars {
-			m := new(big.Int).Mod(x.value(), cv.R)
-			if fakeGLVCollision(cv, m) {
-				return SigFakeGLVScalarOne
-			}
-		}
-	}
-	for _, k := range knownSignatures {
-		if strings.Contains(msg, k.needle) {
-			return k.sig
+const (
+	// sw_emulated scalarMulGLVAndFakeGLV (secp256k1, BN254, BLS12-381, BW6-761): the hinted Eisenstein
+	// sub-scalars u1,u2,v1,v2 may all be 0; the relation [v]Q + [u]P = 0 then holds for every Q.
+	SigZeroSubscalars = "glvfakeglv-zero-subscalars-any-output"
+	// same function with WithCompleteArithmetic: the relation is skipped when s = 0, s = -1, P = (0,0) or the
+	// *hinted* result has the abscissa of P, and the unconstrained hint output is returned.
+	SigCompleteBypass = "glvfakeglv-complete-selector-bypass"
+	// AddUnified (emulated and native): y1 = -y2 with x1 != x2 (e.g. Q = -phi(P)) returns (0,0) instead of P+Q.
+	SigAddUnifiedOppY = "addunified-opposite-y-distinct-x"
+	// halfGCDEisenstein hint never returns for s = r-k (small k), lambda-k, +-lambda, ...
+	SigEisenstein = "eisenstein-halfgcd-nontermination"
+	// GLV curves without complete arithmetic: s = +-1 unsatisfiable although documented as in-domain.
+	SigScalarOne = "emulated-scalarmul-incomplete-scalar-pm1"
+	// scalarMulFakeGLV (P-256, P-384): s in {+-1, +-3, +-1/3} unsatisfiable with and without complete arithmetic.
+	SigFakeGLVScalarOne = "fakeglv-scalarmul-scalar-pm1"
+)
+
+// twistededwards ScalarMul (fake GLV): scalar 0 makes the halfGCD hint divide by zero (ecc.PrecomputeLattice):
+// unsatisfiable in the test engine, panic escaping the compiled solver.
+const SigTEZeroScalar = "twistededwards-scalarmul-zero-scalar"
+
+// twistededwards scalarMulFakeGLV: the hinted (s1, s2, bit, k) may be all zero; [0]P + [0]Q = (0,1) holds for every
+// hinted result Q, which is returned unconstrained.
+const SigTEZeroSubscalars = "twistededwards-fakeglv-zero-subscalars-any-output"
+
+func excludedTE(curve, op string, scalars []string) string {
+	if _, ok := open(SigTEZeroScalar); ok && op == "ScalarMul" {
+		cv := teCurves[curve]
+		if cv != nil && len(scalars) == 1 && new(big.Int).Mod(unhx(scalars[0]), cv.Order).Sign() == 0 {
+			return SigTEZeroScalar
 		}
 	}
 	return ""
 }
 
-// Signatures of the defects this check found on gnark f97c049 (see the final
-// report); each is matched on a stable fragment of the violation message.
-var knownSignatures = []struct{ needle, sig string }{
-	{"solver does not return: the halfGCDEisenstein hint", SigEisenstein},
+func excludedECDSA(c *ECDSACase) string {
+	return ""
 }
 
-// oppositeYDistinctX reports whether two operands (or two scalar-multiplied
-// terms of a complete-arithmetic sum) have y1 = -y2 with x1 != x2, e.g. Q = -phi(P).
+func open(sig string) (ev.Finding, bool) { return ev.OpenFinding(ID, sig) }
+
+func isGLVEmulated(curve string) bool {
+	cv := curves[curve]
+	return cv != nil && cv.Lambda != nil && curve != "bls12377"
+}
+
+func isFakeGLV(curve string) bool { return curve == "p256" || curve == "p384" }
+
+func pm1(cv *swCurve, s *big.Int) bool {
+	m := new(big.Int).Mod(s, cv.R)
+	return m.Cmp(big.NewInt(1)) == 0 || m.Cmp(new(big.Int).Sub(cv.R, big.NewInt(1))) == 0
+}
+
+// fakeGLVCollision: s in {+-1, +-3, +-1/3} makes the hinted R = [s]Q collide with the
+// precomputed table {+-Q, +-3Q, +-R, +-3R} of scalarMulFakeGLV.
+func fakeGLVCollision(cv *swCurve, s *big.Int) bool {
+	m := new(big.Int).Mod(s, cv.R)
+	inv3 := new(big.Int).ModInverse(big.NewInt(3), cv.R)
+	for _, k := range []*big.Int{big.NewInt(1), big.NewInt(3), inv3} {
+		if m.Cmp(k) == 0 || m.Cmp(new(big.Int).Sub(cv.R, k)) == 0 {
+			return true
+		}
+	}
+	return false
+}
+
+// scalarMulScalars lists the scalars of the case that reach the single-point
+// variable-base routine (ScalarMul -> scalarMulGLVAndFakeGLV / scalarMulFakeGLV).
+func scalarMulScalars(c *SWCase) []*big.Int {
+	var r []*big.Int
+	v := func(i int) *big.Int { return c.Scalars[i].value() }
+	switch c.Op {
+	case opMul:
+		r = append(r, v(0))
+	case opMulBase:
+		if isGLVEmulated(c.Curve) {
+			r = append(r, v(0)) // ScalarMulBase = scalarMulGLVAndFakeGLV(G, s) on GLV curves
+		}
+	case opFold:
+		r = append(r, v(0))
+	case opMSM:
+		n := len(c.Scalars)
+		if isFakeGLV(c.Curve) || c.Complete {
+			for i := 0; i < n; i++ { // jointScalarMul = two single scalar multiplications
+				r = append(r, v(i))
+			}
+		} else if n%2 == 1 {
+			r = append(r, v(n-1))
+		}
+	case opJoint:
+		if isFakeGLV(c.Curve) || c.Complete {
+			r = append(r, v(0), v(1))
+		}
+	}
+	return r
+}
+
+// oppositeYDistinctX reports whether two operands of an AddUnified call (the
+// operands themselves, or the scalar-multiplied terms / partial sums that a
+// complete-arithmetic sum combines with AddUnified) have y1 = -y2 and x1 != x2.
 func oppositeYDistinctX(c *SWCase) bool {
 	cv := curves[c.Curve]
 	var terms []point
@@ -83,18 +126,17 @@ func oppositeYDistinctX(c *SWCase) bool {
 			terms = append(terms, p.point())
 		}
 	case opJoint:
-		if !c.Complete {
+		if !c.Complete && !isFakeGLV(c.Curve) {
 			return false
 		}
 		terms = append(terms, cv.mul(c.Points[0].point(), c.Scalars[0].value()), cv.mul(cv.G, c.Scalars[1].value()))
 	case opMSM:
-		if !c.Complete {
+		if !c.Complete && !isFakeGLV(c.Curve) {
 			return false
 		}
 		for i := range c.Points {
 			terms = append(terms, cv.mul(c.Points[i].point(), c.Scalars[i].value()))
 		}
-		// partial sums of the pairs are combined with AddUnified as well
 		acc := inf()
 		for _, t := range terms {
 			acc = cv.add(acc, t)
@@ -117,89 +159,143 @@ func oppositeYDistinctX(c *SWCase) bool {
 	return false
 }
 
-func sameAbscissa(cv *swCurve, base point, s *big.Int, claim string) bool {
-	cp, _ := claimPoint(cv, base, s, claim)
-	return cp.X.Cmp(base.X) == 0
-}
-
-// fakeGLVCollision: s in {+-1, +-3, +-1/3} makes the hinted R = [s]Q collide with the
-// precomputed table {+-Q, +-3Q, +-R, +-3R} of scalarMulFakeGLV.
-func fakeGLVCollision(cv *swCurve, s *big.Int) bool {
-	inv3 := new(big.Int).ModInverse(big.NewInt(3), cv.R)
-	for _, k := range []*big.Int{big.NewInt(1), big.NewInt(3), inv3} {
-		if s.Cmp(k) == 0 || s.Cmp(new(big.Int).Sub(cv.R, k)) == 0 {
-			return true
+// excludedSW returns the signature of the open finding whose exact shape the case has ("" = none).
+func excludedSW(c *SWCase) string {
+	cv := curves[c.Curve]
+	if cv == nil {
+		return ""
+	}
+	if _, inDomain, _ := reference(c); !inDomain {
+		return ""
+	}
+	if _, ok := open(SigEisenstein); ok {
+		if deg, _ := degenerateScalar(c); deg {
+			return SigEisenstein
 		}
 	}
-	return false
-}
-
-const (
-	// sw_emulated scalarMulGLVAndFakeGLV with WithCompleteArithmetic: the relation check is skipped when s = 0, s = -1,
-	// P = (0,0) or the *hinted* result has the abscissa of P; the returned point is the unconstrained hint output
-	SigCompleteBypass = "glvfakeglv-complete-selector-bypass"
-	// sw_emulated scalarMulGLVAndFakeGLV (secp256k1, BN254, BLS12-381, BW6-761): the hinted Eisenstein
-	// sub-scalars u1,u2,v1,v2 may all be 0; the relation [v]Q + [u]P = 0 then holds for every Q:
-	// ScalarMul / ScalarMulBase accept any claimed result
-	SigZeroSubscalars = "glvfakeglv-zero-subscalars-any-output"
-	// sw_emulated scalarMulFakeGLV (P-256, P-384): s in {+-1, +-3, +-1/3} unsatisfiable with and without complete arithmetic
-	SigFakeGLVScalarOne = "fakeglv-scalarmul-scalar-pm1"
-	// AddUnified (emulated and native): for y1 = -y2 with x1 != x2 (e.g. Q = -phi(P) on j=0 curves) the
-	// gadget returns (0,0) instead of P+Q
-	SigAddUnifiedOppY = "addunified-opposite-y-distinct-x"
-	// sw_emulated ScalarMul / ScalarMulBase / MultiScalarMul without complete arithmetic: s = +-1 (mod r) is inside the
-	// documented domain (s != 0, Q != (0,0)) but the circuit is unsatisfiable ([s]P = +-P meets the incomplete addition)
-	SigScalarOne = "emulated-scalarmul-incomplete-scalar-pm1"
-	// sw_emulated ScalarMul on GLV curves: hint never returns for s = r-k (small k), +-lambda-k, ...
-	SigEisenstein = "eisenstein-halfgcd-nontermination"
-)
-
-// openFinding consults /verif/known_findings.json; for development runs only,
-// C16_DEV_ASSUME_OPEN=sig1,sig2 treats the listed signatures as open findings.
-func openFinding(sig string) (ev.Finding, bool) {
-	if kf, ok := ev.OpenFinding(ID, sig); ok {
-		return kf, true
+	if _, ok := open(SigAddUnifiedOppY); ok && oppositeYDistinctX(c) {
+		return SigAddUnifiedOppY
 	}
-	for _, s := range strings.Split(os.Getenv("C16_DEV_ASSUME_OPEN"), ",") {
-		if s != "" && s == sig {
-			return ev.Finding{ID: "DEV-" + sig, Property: ID, Status: "open", Match: sig, What: "development override: " + sig}, true
+	if _, ok := open(SigScalarOne); ok && isGLVEmulated(c.Curve) && !c.Complete {
+		for _, s := range scalarMulScalars(c) {
+			if pm1(cv, s) {
+				return SigScalarOne
+			}
 		}
 	}
-	return ev.Finding{}, false
+	if _, ok := open(SigFakeGLVScalarOne); ok && isFakeGLV(c.Curve) {
+		for _, s := range scalarMulScalars(c) {
+			if fakeGLVCollision(cv, s) {
+				return SigFakeGLVScalarOne
+			}
+		}
+	}
+	return ""
 }
 
-// withKnown turns a violation that matches an open known finding into a
-// KNOWN-FINDING discard.
-func withKnown(rec *ev.Recorder, kind string, o ev.Outcome, c ...any) ev.Outcome {
-	if o.Violation == "" {
-		return o
+// excludedAdv is the same for the hint-adversary cases.
+func excludedAdv(c *AdvCase) string {
+	cv := curves[c.Curve]
+	if cv == nil {
+		return ""
 	}
-	var cc any
-	if len(c) > 0 {
-		cc = c[0]
+	s := new(big.Int).Mod(unhx(c.S), cv.R)
+	base := cv.G
+	if c.Op == opMul {
+		base = c.P.point()
 	}
-	if sig := signature(kind, cc, o.Violation); sig != "" {
-		if kf, ok := openFinding(sig); ok {
+	glv := isGLVEmulated(c.Curve)
+	if _, ok := open(SigZeroSubscalars); ok && glv && c.Strategy == "zero-subscalars" {
+		return SigZeroSubscalars
+	}
+	if _, ok := open(SigCompleteBypass); ok && glv && c.Complete && c.Strategy != "baseline" {
+		cp, _ := claimPoint(cv, base, s, c.Claim)
+		if s.Sign() == 0 || s.Cmp(new(big.Int).Sub(cv.R, big.NewInt(1))) == 0 || base.isInf() || cp.X.Cmp(base.X) == 0 {
+			return SigCompleteBypass
+		}
+	}
+	if _, ok := open(SigScalarOne); ok && glv && !c.Complete && pm1(cv, s) {
+		return SigScalarOne
+	}
+	if _, ok := open(SigFakeGLVScalarOne); ok && isFakeGLV(c.Curve) && c.Op == opMul && fakeGLVCollision(cv, s) {
+		return SigFakeGLVScalarOne
+	}
+	return ""
+}
+
+// ---- probes -------------------------------------------------------------------------
+
+type probe struct {
+	sig  string
+	kind string
+	c    any
+	run  func() ev.Outcome
+}
+
+func probes() []probe {
+	secp, bn := curves["secp256k1"], curves["bn254"]
+	val := func(v *big.Int) Sc { return Sc{Form: "val", A: hx(v)} }
+	P := secp.derive("probe")
+	var ps []probe
+	sw := func(sig string, c SWCase) {
+		ps = append(ps, probe{sig, "sw", c, func() ev.Outcome { return runSW(c) }})
+	}
+	adv := func(sig string, c AdvCase) {
+		ps = append(ps, probe{sig, "adv", c, func() ev.Outcome { return runAdv(c) }})
+	}
+	// F24: all four Eisenstein sub-scalars zero, hinted point replaced, default options
+	adv(SigZeroSubscalars, AdvCase{Curve: "secp256k1", Op: opMul, P: P.pt(), S: "1c0503b3050701ff00910002030318cba90c00911f445f0700140102b6068101", Claim: "next", Strategy: "zero-subscalars"})
+	adv(SigZeroSubscalars, AdvCase{Curve: "bn254", Op: opMulBase, S: "1c0503b3050701ff00910002030318cba90c00911f445f0700140102b6068101", Claim: "rand", Strategy: "zero-subscalars"})
+	// F25: complete arithmetic, hinted result with the abscissa of P; and s = 0 with an arbitrary hinted point
+	adv(SigCompleteBypass, AdvCase{Curve: "secp256k1", Op: opMulBase, Complete: true, S: "b48d193d1372000519690491426c2202cc00020003172aeeeb3960f0a014c2", Claim: "negP", Strategy: "point-only"})
+	adv(SigCompleteBypass, AdvCase{Curve: "bn254", Op: opMul, Complete: true, P: bn.derive("probe").pt(), S: "0", Claim: "G", Strategy: "point-only"})
+	// F26: Q = -phi(G) + G
+	endo := secp.neg(secp.mul(secp.G, secp.Lambda))
+	sw(SigAddUnifiedOppY, SWCase{Curve: "secp256k1", Op: opAddU, Points: []Pt{endo.pt(), secp.G.pt()}})
+	b377 := curves["bls12377"]
+	sw(SigAddUnifiedOppY, SWCase{Curve: "bls12377", Op: opAddU, Points: []Pt{b377.neg(b377.mul(b377.G, b377.Lambda)).pt(), b377.G.pt()}})
+	// F27: s = r-2 (complete arithmetic) never returns
+	sw(SigEisenstein, SWCase{Curve: "secp256k1", Op: opMul, Complete: true, Points: []Pt{P.pt()}, Scalars: []Sc{val(new(big.Int).Sub(secp.R, big.NewInt(2)))}})
+	// F28: s = 1 without complete arithmetic
+	sw(SigScalarOne, SWCase{Curve: "secp256k1", Op: opMul, Points: []Pt{P.pt()}, Scalars: []Sc{val(big.NewInt(1))}})
+	// F29: s = 3 (incomplete) and s = 1 (complete) on P-256
+	p256 := curves["p256"]
+	sw(SigFakeGLVScalarOne, SWCase{Curve: "p256", Op: opMul, Points: []Pt{p256.derive("probe").pt()}, Scalars: []Sc{val(big.NewInt(3))}})
+	sw(SigFakeGLVScalarOne, SWCase{Curve: "p256", Op: opMul, Complete: true, Points: []Pt{p256.G.pt()}, Scalars: []Sc{val(big.NewInt(1))}})
+	// twisted Edwards ScalarMul with the half-GCD hint outputs all zero and the hinted result replaced
+	tea := TEAdvCase{Curve: "bn254", P: teCurves["bn254"].derive("probe").pt(), S: "1c0503b3050701ff00910002030318cba90c00911f445f07", Claim: "addB", Strategy: "zero-subscalars"}
+	ps = append(ps, probe{SigTEZeroSubscalars, "te-adv", tea, func() ev.Outcome { return runTEAdv(tea) }})
+	// twisted Edwards ScalarMul(P, 0)
+	te := TECase{Curve: "bn254", Op: "ScalarMul", Points: []Pt{teCurves["bn254"].derive("probe").pt()}, Scalars: []string{"0"}}
+	ps = append(ps, probe{SigTEZeroScalar, "te", te, func() ev.Outcome { return runTE(te) }})
+	return ps
+}
+
+// TestKnownFindingProbes runs the probe of every finding. Open finding and the
+// probe reproduces: KNOWN-FINDING. Not open and the probe fails: fresh violation.
+func TestKnownFindingProbes(t *testing.T) {
+	t.Parallel()
+	rec := ev.Get(ID)
+	rec.SetRule(rule)
+	for _, p := range probes() {
+		o := p.run()
+		kf, isOpen := open(p.sig)
+		switch {
+		case o.Violation != "" && isOpen:
 			rec.KnownFinding(kf.ID, kf.What)
-			return ev.Outcome{Discard: true, DiscardWhy: "known finding " + kf.ID}
+			rec.Discarded("probe:reproduced open finding " + kf.ID)
+		case o.Violation != "":
+			path := rec.Violate(p.kind, p.c, o.Violation)
+			t.Errorf("VIOLATION %s kind=%s replay=%s: %s", ID, p.kind, path, trunc(o.Violation, 1200))
+		case o.Discard:
+			rec.Discarded("probe:" + o.DiscardWhy)
+		default:
+			if isOpen {
+				rec.Note("probe of open finding %s (%s) no longer reproduces", kf.ID, p.sig)
+			}
+			rec.Count(p.kind, p.c, true, append(o.Classes, "source:probe")...)
 		}
 	}
-	return o
-}
-
-// knownOrViolate is the enumeration-side counterpart: returns true if the
-// violation was absorbed by an open known finding, otherwise records it and fails t.
-func knownOrViolate(t *testing.T, rec *ev.Recorder, kind string, c any, msg string) bool {
-	if sig := signature(kind, c, msg); sig != "" {
-		if kf, ok := openFinding(sig); ok {
-			rec.KnownFinding(kf.ID, kf.What)
-			rec.Discarded(kind + ":known finding " + kf.ID)
-			return true
-		}
-	}
-	p := rec.Violate(kind, c, msg)
-	t.Errorf("VIOLATION %s kind=%s replay=%s: %s", ID, kind, p, msg)
-	return false
 }
 
 func registerMoreReplays(reg func(kind string, f func(raw json.RawMessage) string)) {
@@ -209,6 +305,34 @@ func registerMoreReplays(reg func(kind string, f func(raw json.RawMessage) strin
 			return ""
 		}
 		return runAdv(c).Violation
+	})
+	reg("ecdsa", func(raw json.RawMessage) string {
+		var c ECDSACase
+		if json.Unmarshal(raw, &c) != nil {
+			return ""
+		}
+		return runECDSA(c).Violation
+	})
+	reg("te", func(raw json.RawMessage) string {
+		var c TECase
+		if json.Unmarshal(raw, &c) != nil {
+			return ""
+		}
+		return runTE(c).Violation
+	})
+	reg("eddsa", func(raw json.RawMessage) string {
+		var c EdDSACase
+		if json.Unmarshal(raw, &c) != nil {
+			return ""
+		}
+		return runEdDSA(c).Violation
+	})
+	reg("te-adv", func(raw json.RawMessage) string {
+		var c TEAdvCase
+		if json.Unmarshal(raw, &c) != nil {
+			return ""
+		}
+		return runTEAdv(c).Violation
 	})
 }
 
